@@ -1,7 +1,8 @@
 (* C07 - Values from the program are reduced to the width of the signal they drive.
    Property theorems only; the proofs are in proofs/MaskProof.v. *)
 From DTR Require Import Prelude I64 Ast Bind.
-From DTR.proofs Require Import I64Facts MaskProof.
+From DTR Require Import GeneratedTables.
+From DTR.proofs Require Import I64Facts MaskProof TablesProof.
 Open Scope Z_scope.
 
 (* every width 1..64, every 64-bit value: the value modulo 2^bits, read as two's complement
@@ -23,6 +24,11 @@ Proof. exact mask_value_i64. Qed.
 (* virtual signals are 64 bits wide *)
 Theorem C07_virtual_is_64 : forall v, sbits (virtual_signal v) = 64%N.
 Proof. intros v. reflexivity. Qed.
+
+(* T1: the mask of the model is fn bit_mask of src/data_row_iterator.rs (translated on every run; the
+   translator also checks that exactly the input path and the expected path apply it) *)
+Theorem C07_mask_is_the_source : forall bits, bit_mask bits = gen_bit_mask bits.
+Proof. exact bit_mask_pinned. Qed.
 
 Check C07_reduced_modulo_width : forall bits n, (1 <= bits <= 64)%N -> i64 n ->
   mask_value bits n = to_i64 (n mod 2 ^ Z.of_N bits).
